@@ -147,7 +147,8 @@ def gen_case(seed, tier):
                         'p_point': rng.choice([0.3, 1.0]), 'line_p': rng.choice([0, 0, 0.05])})
         else:
             ops.append({'op': 'gc'})
-    return {'prop': PROP, 'seed': seed, 'knobs': knobs, 'pool': pool, 'shared': [], 'ops': ops}
+    return {'prop': PROP, 'seed': seed, 'knobs': knobs, 'pool': pool, 'shared': [], 'ops': ops,
+            'fresh_interpreter': seed % (25 if tier == 'quick' else 10) == 0}
 
 
 class _Cold:
@@ -157,12 +158,14 @@ class _Cold:
         self.case = case
         self.memo = {}
         self.n = 0
+        self.jobs = []
 
     def outcome(self, i, j, path_star, regs, glommer=None):
         key = simrun.jhash([i, j, path_star, regs, glommer])
         if key in self.memo:
             return self.memo[key]
         self.n += 1
+        self.jobs.append({'i': i, 'j': j, 'path_star': path_star, 'regs': regs, 'glommer': glommer, 'key': key})
         kn = dict(self.case['knobs'], max_cache=10000, path_star=path_star)
         G = simrun.make_instance(kn)
         k = simrun.make_kernel(G, seed=0)
@@ -179,6 +182,32 @@ class _Cold:
         out = canon.outcome(res, B.idmap)
         self.memo[key] = out
         return out
+
+
+def fresh_interpreter_outcomes(case, jobs):
+    """evaluate the cold references again in a brand-new interpreter under another PYTHONHASHSEED"""
+    import json
+    import os
+    import subprocess
+    import sys
+    from .. import runner
+    env = dict(os.environ, PYTHONHASHSEED='4242')
+    p = subprocess.run([sys.executable, os.path.join(runner.VERIF, 'run_check.py'), '--c06-cold'],
+                       input=json.dumps({'case': case, 'jobs': jobs}), capture_output=True, text=True,
+                       env=env, timeout=300, cwd=runner.VERIF)
+    if p.returncode != 0:
+        raise RuntimeError('fresh interpreter failed: ' + p.stderr[-500:])
+    return json.loads(p.stdout.strip().splitlines()[-1])
+
+
+def cold_main(payload):
+    """entry for `run_check.py --c06-cold` (reads {'case', 'jobs'}, prints {key: outcome})"""
+    case = payload['case']
+    cold = _Cold(case)
+    out = {}
+    for jb in payload['jobs']:
+        out[jb['key']] = cold.outcome(jb['i'], jb['j'], jb['path_star'], jb['regs'], jb['glommer'])
+    return out
 
 
 def run_case(case, gen_rng=None):
@@ -344,6 +373,15 @@ def run_case(case, gen_rng=None):
                 if not canon.snap_equal(snaps[idx], after):
                     viols.append({'clause': 'frame-condition', 'sig': 'frame-condition/pair',
                                   'expected': 'unchanged', 'observed': canon.snap_diff(snaps[idx], after)})
+    if case.get('fresh_interpreter') and cold.jobs:
+        fresh = fresh_interpreter_outcomes({kk: case[kk] for kk in ('knobs', 'pool', 'shared', 'seed')}, cold.jobs)
+        stats['fresh_interpreter_refs'] = len(cold.jobs)
+        for jb in cold.jobs:
+            if fresh.get(jb['key']) != cold.memo[jb['key']]:
+                viols.append({'clause': 'cold-equivalence', 'sig': 'cold-equivalence/fresh-interpreter',
+                              'expected': fresh.get(jb['key']), 'observed': cold.memo[jb['key']],
+                              'job': {kk: jb[kk] for kk in ('i', 'j', 'path_star')}})
+                break
     digest = simrun.jhash([trace, k.digest()])
     for v in viols:
         v['digest'] = digest
